@@ -98,7 +98,7 @@ fn float_case(rng: &mut Rng, st: &mut Stats) {
     let d = match d {
         Ok(d) => d,
         Err(m) => {
-            if m.contains("both zero") {
+            if crate::core::is_zero_pow_zero(&m) {
                 st.bump("zero_to_the_zero_errors_not_judged");
                 return;
             }
@@ -160,7 +160,7 @@ fn float_case(rng: &mut Rng, st: &mut Stats) {
                     }
                 }
                 Ok(Err(m)) => {
-                    if !m.contains("both zero") {
+                    if !crate::core::is_zero_pow_zero(&m) {
                         st.violation(format!("reversed-table-error|{text}"), text.len() + 50, json!({"kind": "derivative-error-with-reordered-operator-table", "text": text, "error": m}));
                         return;
                     }
@@ -208,7 +208,7 @@ fn float_case(rng: &mut Rng, st: &mut Stats) {
                 }
             }
             Ok(Err(e)) => {
-                if !e.msg().contains("both zero") {
+                if !crate::core::is_zero_pow_zero(e.msg()) {
                     st.violation(format!("error2|{text}"), text.len() + 100, json!({"kind": "second-derivative-error", "text": text, "error": e.msg()}));
                 }
             }
@@ -293,7 +293,7 @@ fn rat_case(rng: &mut Rng, table: &Table, st: &mut Stats) {
     let d = match r {
         Ok(Ok(d)) => d,
         Ok(Err(m)) => {
-            if m.contains("both zero") {
+            if crate::core::is_zero_pow_zero(&m) {
                 st.bump("zero_to_the_zero_errors_not_judged");
             } else {
                 st.violation(format!("rat-error|{text}"), text.len(), json!({"kind": "exact-derivative-error", "text": text, "error": m}));
